@@ -25,11 +25,11 @@ Section Statements.
   Definition alone := seq_run store W R apply_w handler other_exec parse_err err_invalid.
 
   (* H1 (isolation; C12): writes of a batchable command on another primary key never change what a
-     batchable command reads.  H2: no batchable command fails with an abort-class error. *)
+     batchable command reads.  H2: no batchable command that passed the argument pre-check (isValidBatchableWrite) fails with an abort-class error. *)
   Definition isolation : Prop := forall q q' s' ws r s,
     name_batchable q = true -> name_batchable q' = true -> rpk q <> rpk q' ->
     handler q' s' = Ok ws r -> handler q (commit_ws store W apply_w s ws) = handler q s.
-  Definition no_abort_in_batch : Prop := forall q s e, name_batchable q = true -> handler q s <> Fail e true.
+  Definition no_abort_in_batch : Prop := forall q s e, name_batchable q = true -> rvalid q = true -> handler q s <> Fail e true.
 
   (* the full statement of C07(a): for every log and every partition, same store and same reply for
      every request as one-at-a-time application — with NO assumption on the handlers' errors *)
@@ -128,7 +128,7 @@ Proof. split; [exact thandler_indep | exact thandler_noabort]. Qed.
 (* a batch really forms in that instance: two sets on different keys and a third on the first key
    (which cuts the batch and then runs unbatched); stores and replies equal those of the one-at-a-time run *)
 Example C07_ex_batch :
-  let q := fun i pk v => mkReq i KRedis [115; 101; 116] pk 3 v in
+  let q := fun i pk v => mkReq i KRedis [115; 101; 116] pk 3 v true in
   let log := [q 0 [1] 10; q 1 [2] 20; q 2 [1] 30] in
   match apply_batched tstore (bytes * N) N tapply thandler (fun _ s => (s, 0)) (fun _ => 0) 0 0 (fun _ _ => false)
           false false false [] [[mkCall false log]] with
